@@ -120,6 +120,10 @@ func c03Impl(c *Ctx, im setImpl) {
 		// methods of the two implementations (or of the interface) that are themselves decided to return fresh sets;
 		// a package-level helper that happens to be called Clone is not one of them
 		isSetMethod := strings.HasPrefix(t.Sym, "maps.(Set).") || strings.HasPrefix(t.Sym, "sync2.(*Set).") || strings.HasPrefix(t.Sym, "iface.Set.")
+		if t.Op == "call" && t.Sym == "maps.Clone" {
+			// the package's generic map copier: decided under this check by C14's rules (dependency closure)
+			return true
+		}
 		if t.Op == "call" && isSetMethod && (strings.HasSuffix(t.Sym, ".Clone") || strings.HasSuffix(t.Sym, ".SetDiff") || strings.HasSuffix(t.Sym, ".Intersect") || strings.HasSuffix(t.Sym, ".Union") || strings.HasSuffix(t.Sym, ".SymDiff")) {
 			return true
 		}
@@ -549,6 +553,10 @@ func c03Impl(c *Ctx, im setImpl) {
 			if ok {
 				r := ps[0].Rets[0]
 				ok = r.Op == "extract" && r.N == 1 && r.Args[0].Op == "lookup" && isParam(r.Args[0].Args[0], 0) && isParam(r.Args[0].Args[1], 1)
+				// or the package's HasKey helper on the same map and value (decided by C14's rules, dependency closure)
+				if !ok && r.Op == "call" && r.Sym == "maps.HasKey" && len(r.Args) == 2 && isParam(stripConv(r.Args[0]), 0) && isParam(r.Args[1], 1) {
+					ok = true
+				}
 			}
 			R.Decide(ok, "enumeration-source", fi.Name, "lookup", c.pos(fi), "presence flag of s[value]", "Has is not the presence flag of s[value]")
 		}
@@ -556,7 +564,11 @@ func c03Impl(c *Ctx, im setImpl) {
 			ps := c.paths("enumeration-source", fi)
 			ok, why := true, ""
 			loops := findLoops(ps)
-			if len(loops) != 1 {
+			viaKeys := len(ps) == 1 && len(ps[0].Rets) == 1 && ps[0].Rets[0].Op == "call" && ps[0].Rets[0].Sym == "maps.Keys" &&
+				len(ps[0].Rets[0].Args) == 1 && isParam(stripConv(ps[0].Rets[0].Args[0]), 0)
+			if viaKeys {
+				// the package's Keys helper on the set's own map (decided by C14's rules, dependency closure)
+			} else if len(loops) != 1 {
 				ok, why = false, "expected one loop"
 			} else {
 				it := c14IterOf(loops[0])
@@ -692,6 +704,12 @@ func c03Passes(c *Ctx, fi *FuncInfo, ps []*Path, which func(*FuncInfo, *Term) st
 					adds++
 				} else if e.Kind == "call" && isSetMutatorName(e.Name) {
 					return "", false, "unexpected mutation " + e.Name
+				} else if e.Kind == "mapupdate" && e.Addr != nil && stripIface(e.Addr).Key() == result.Key() {
+					// a direct store into the (map-backed, still private) result: the same as Add
+					if !elem(e.Key) {
+						return "", false, "stores something other than the enumerated element into the result"
+					}
+					adds++
 				}
 			}
 			if needTrue && b.end == EndReturn && !(len(b.rets) == 1 && b.rets[0].IsConst("true")) {
@@ -838,6 +856,21 @@ func c03Ctors(c *Ctx) {
 						adds := 0
 						for i := p.LoopAt[it.li.Hdr]; i < len(p.Events); i++ {
 							e := &p.Events[i]
+							if e.Kind == "mapupdate" && e.Addr != nil && e.Addr.Op == "mkmap" {
+								// a direct store into the fresh, still private map: the same as Add
+								adds++
+								set = stripIface(e.Addr)
+								good := false
+								switch row.what {
+								case "elem", "value":
+									good = it.isElem(e.Key)
+								case "key":
+									good = it.isKey(e.Key)
+								}
+								if !good {
+									ok, why = false, "stores something other than the current "+row.what
+								}
+							}
 							if e.Kind == "call" && strings.HasSuffix(e.Name, ".Add") && len(e.Args) == 2 {
 								adds++
 								set = stripIface(e.Args[0])
